@@ -865,6 +865,48 @@ def check_C03(ctx, unit):
                 ok = ok and bool(po) and bool(up) and f.dominates(po[0].id, up[0].id)
             ctx.inst("Z.poison-order", "%s::allocate%s" % (POOL, tag), ok, f.loc,
                      "small path: poison(link word) then unpoison(object, length) before returning: %s" % ok, f)
+        # the copying fallback of realloc reads the whole usable size of the old block; for a slab block only the requested
+        # prefix is unpoisoned, so the block must be unpoison_expand()ed first (large blocks are unpoisoned in full when built)
+        from .inline import inline_variant
+        byd_ = {g.d["did"]: g for g in fns}
+        for f0 in bn.get("realloc", []):
+            f = inline_variant(unit, f0, lambda cal: (byd_.get(cal.get("did")) is not None and byd_[cal["did"]].get("access") in ("private", "protected")
+                                                      and (byd_[cal["did"]].get("ret") or "") == "bool"))
+            pp = f0.params()[0]["d"]
+            cps = [n for n in f.events() if n.is_call() and n.callee and n.callee["n"] in ("memcpy", "__builtin_memcpy", "memmove")
+                   and len(n.args) == 3 and std_unwrap(n.args[1]).kind == "DeclRefExpr" and std_unwrap(n.args[1]).d["d"] == pp]
+            if not cps:
+                raise AnalysisBroken("anchor vanished: copy out of the old block in realloc")
+            bad = []
+
+            def tr(n, st, f=f):
+                kind, exp = st
+                if is_policy_call(n, pol, ("unpoison_expand", "unpoison")) and n.args and std_unwrap(n.args[0]).kind == "DeclRefExpr" \
+                        and std_unwrap(n.args[0]).d["d"] == pp:
+                    return [(kind, True)]
+                if is_policy_call(n, pol, ("poison",)) and n.args and std_unwrap(n.args[0]).kind == "DeclRefExpr" and std_unwrap(n.args[0]).d["d"] == pp:
+                    return [(kind, False)]
+                if any(n.id == c.id for c in cps) and kind != "large" and not exp:
+                    bad.append(n.loc)
+                return [st]
+
+            def rf(cond, truth, st):
+                c, t = cond.strip(), truth
+                while c.kind == "UnaryOperator" and c.op == "!":
+                    c, t = c.children[0].strip(), not t
+                cc = _strip_ids(canon(c))
+                if c.kind == "BinaryOperator" and c.op in ("==", "!=") and ".type" in cc:
+                    is_eq = (c.op == "==") == t
+                    if "frame_type::slab" in cc:
+                        return [("slab" if is_eq else "large", st[1])]
+                    if "frame_type::large" in cc:
+                        return [("large" if is_eq else "slab", st[1])]
+                return [st]
+            flow.run(f, [(None, False)], tr, rf)
+            ctx.inst("Z.poison-order", "%s::realloc: copy out of the old block%s" % (POOL, tag), not bad, cps[0].loc,
+                     ("memcpy at %s reads the whole usable size of a slab block whose tail beyond the requested length is still "
+                      "poisoned (no unpoison_expand of the old block on that path)" % bad[0]) if bad else
+                     "the old slab block is unpoison_expand()ed before its usable size is copied", f0)
         for f in bn.get("free_huge_", []):
             fp = f.params()[0]
             pz = [x for x in pcalls(f, "poison") if arg0(x) == fp["n"]]
